@@ -249,13 +249,22 @@ func infoEntry(p string, fi os.FileInfo) Entry {
 }
 
 func (r *runner) readAll(s afero.Fs, p string) (data []byte, err error) {
+	return r.readAllChunk(s, p, 32*1024)
+}
+
+// readAllChunk reads a file to its end with a buffer of the given size (a reader whose last successful Read fills its
+// buffer exactly at the end of the file sees the end only through the NEXT Read)
+func (r *runner) readAllChunk(s afero.Fs, p string, chunk int) (data []byte, err error) {
 	f, err := s.Open(p)
 	if err != nil {
 		return nil, err
 	}
 	defer f.Close()
 	var buf bytes.Buffer
-	tmp := make([]byte, 32*1024)
+	if chunk <= 0 {
+		chunk = 1
+	}
+	tmp := make([]byte, chunk)
 	for {
 		n, err := f.Read(tmp)
 		if n > 0 {
@@ -971,7 +980,28 @@ func (r *runner) exec(c Call) (ret map[string]interface{}, err error) {
 		cfg.ReadOnly = true
 		cfg.NoWriteOp = c.Bool
 		var in2 *inst
-		in2, err = mk(cfg, r.in.drive, r.in.meta, r.dir, r.ks, &seams{})
+		meta, ks := r.in.meta, r.ks
+		if c.Data == "fresh" || c.Data == "fresh-otherkey" {
+			// with an EMPTY index (Initialize has to read the tape); with another identity nothing on the tape can be indexed
+			r.nextDB++
+			meta = filepath.Join(r.dir, fmt.Sprintf("meta-ro-%d.sqlite", r.nextDB))
+			if c.Data == "fresh-otherkey" {
+				keysDir := cfg.KeysDir
+				if keysDir == "" {
+					base := os.Getenv("VERIF_SCRATCH")
+					if base == "" {
+						base = os.TempDir()
+					}
+					keysDir = filepath.Join(base, "stfsdrv-keys")
+				}
+				var kerr error
+				ks, kerr = loadOrGenKeys(keysDir, cfg.Enc, cfg.Sig, cfg.Password, "other")
+				if kerr != nil {
+					return ret, kerr
+				}
+			}
+		}
+		in2, err = mk(cfg, r.in.drive, meta, r.dir, ks, &seams{})
 		if err == nil {
 			r.in = in2
 			var root string
